@@ -101,3 +101,10 @@ func main() {
 	out.Close()
 	fmt.Fprintf(os.Stderr, "vh: %d jobs\n", n)
 }
+
+func jsonUnmarshal(raw json.RawMessage, v any) error {
+	if raw == nil {
+		return nil
+	}
+	return json.Unmarshal(raw, v)
+}
